@@ -355,9 +355,19 @@ func Imag(dst []float64, src []complex128) []float64 {
 //
 //	for i, x := range LogSpan(dst, l, u) { ... }
 func LogSpan(dst []complex128, l, u complex128) []complex128 {
+	if l == 0 || u == 0 {
+		for i := range dst {
+			dst[i] = 0
+		}
+		return dst
+	}
 	Span(dst, cmplx.Log(l), cmplx.Log(u))
 	for i := range dst {
 		dst[i] = cmplx.Exp(dst[i])
+	}
+	if !cmplx.IsNaN(l) && !cmplx.IsNaN(u) {
+		// The end points are l and u, not subject to the rounding of exp(log(x)).
+		dst[0], dst[len(dst)-1] = l, u
 	}
 	return dst
 }
